@@ -336,7 +336,7 @@ func parentMain() {
 		"label-filter regexes are compared as RE2 search (DESIGN.md C07: anchoring is not demanded); labels with an empty value count as absent; __error__ labels are not demanded",
 		"the scripted upstream ignores cancellation (losing that race is a legal behaviour of ClickhouseGetterPlanner.Scan)",
 		"reference semantics of mc/logqlref (README there) are the trusted base; first/last_over_time with equal timestamps and limit cuts through equal timestamps are treated as open",
-		"O2 (differential against chsim-executed SQL of the ClickHouse planner) is not part of this run unless extra.o2 says so",
+		"O2: SQL rendered by the real clickhouse_planner is executed by the reference interpreter mc/chsim (trusted; ErrUnsupported is counted, never a verdict); legal split points are 0..GetBreakpoint (or the number of stages) and the all-SQL plan when GetBreakpoint asks for no split",
 	}
 
 	knownFile := filepath.Join(ev.Root(), "KNOWN_FINDINGS.txt")
@@ -433,8 +433,9 @@ func parentMain() {
 		if ur.Err != "" && len(totals.unitErrs) < 20 {
 			totals.unitErrs = append(totals.unitErrs, ur.Name+": "+ur.Err)
 		}
-		if totals.unitsDone%97 == 1 {
-			r.Sample(map[string]any{"query": ur.Query, "unit": ur.Name, "executions": ur.Runs, "outcomes": ur.Outcomes})
+		if ur.Sample != nil {
+			r.Sample(map[string]any{"query": ur.Query, "unit": ur.Name, "executions_in_unit": ur.Runs, "outcomes_in_unit": ur.Outcomes,
+				"first_case": ur.Sample})
 		}
 		for _, f := range ur.Findings {
 			if dc := os.Getenv("C09_DUMP_CLASS"); dc != "" && f.Class == dc {
@@ -442,6 +443,7 @@ func parentMain() {
 			}
 			var rep any
 			json.Unmarshal(f.Replay, &rep)
+			keepExample(f.Class, f.What, rep)
 			r.Violate(f.Class, f.What, rep)
 		}
 	}
@@ -498,8 +500,10 @@ func parentMain() {
 					totals.outcomes["crash"]++
 					var rep any
 					json.Unmarshal(describe(us, ui, seq), &rep)
-					r.Violate(class, fmt.Sprintf("%s: a panic in a stage goroutine kills the whole process (%s); the rest of this unit was not run",
-						q.String(), msg), rep)
+					what := fmt.Sprintf("%s: a panic in a stage goroutine kills the whole process (%s); the rest of this unit was not run",
+						q.String(), msg)
+					keepExample(class, what, rep)
+					r.Violate(class, what, rep)
 				} else {
 					totals.flaky = append(totals.flaky, fmt.Sprintf("%s case %d: %s", u.name(), seq, msg))
 				}
@@ -514,7 +518,9 @@ func parentMain() {
 	r.Transitions = totals.msgs
 	r.TracesValidated = totals.runs
 	for _, k := range sortedKeys(totals.outcomes) {
-		r.Outcome(k)
+		for i := int64(0); i < totals.outcomes[k]; i++ {
+			r.Outcome(k)
+		}
 	}
 	sort.Strings(totals.crashedUnits)
 	cu := totals.crashedUnits
@@ -569,6 +575,21 @@ func parentMain() {
 		ev.Fatal("units lost: %d finished + %d crashed of %d", totals.unitsDone, len(totals.crashedUnits), len(us))
 	}
 	r.Finish()
+}
+
+// keepExample stores the first case of every finding class (known ones included: ev only writes replay files for
+// unlisted violations) as replays/C09/class-<class>.json, replayable with `bin/check C09 --replay <file>`.
+var exampleSeen = map[string]bool{}
+
+func keepExample(class, what string, rep any) {
+	if exampleSeen[class] {
+		return
+	}
+	exampleSeen[class] = true
+	dir := filepath.Join(ev.Out(), "replays", "C09")
+	os.MkdirAll(dir, 0o755)
+	b, _ := json.MarshalIndent(map[string]any{"property": "C09", "class": class, "what": what, "replay": rep}, "", " ")
+	os.WriteFile(filepath.Join(dir, "class-"+class+".json"), b, 0o644)
 }
 
 func replayMain(r *ev.Run, scratch string, known []string) {
